@@ -15,6 +15,10 @@ Enumerated completely (nothing sampled):
                 (C) 3- and 4-topic sets built by rotation over REDUCED, unsorted topic names
                 (D) the empty set
                 (E) thorough tier only: all ordered pairs of ALL kinds x outs_jpg (wire transport)
+                (F) topics that SHARE one pixel array / one jpg blob (a tee of one image): a base kind next to a frame
+                    made from it - Frame(base, data[, other label]) or Frame(base.image, data, label) - with the same
+                    or the other colour label (a relabel, no copy), base first and base second, equal and different
+                    data, x outs_jpg x transport; and 4-topic sets with two sharers around an unrelated topic
 
 Oracle = the statement of C09, nothing more: topics and their order, data, has_image, height, width, format equal;
 raw => pixels identical; jpg => an encoding that already existed is forwarded byte for byte (and then decodes to the
@@ -47,6 +51,12 @@ DATA = [
 ]
 
 NOIMG = None  # the kind "no image"
+
+# A kind may also be a SHARER ('=', j, label, how): the frame of this topic is made from the frame of topic number j of the
+# same set without copying anything - how='frame': Frame(base, data, label) (shares the pixel array and the jpg blob),
+# how='array': Frame(base.image, data, label) (shares the pixel array only).  label is the format it is declared with.
+RELABEL      = {'BGR': 'RGB', 'RGB': 'BGR'}
+SHARE_SIZE   = (3, 5)
 
 REDUCED = [
     NOIMG,
@@ -137,6 +147,41 @@ def make_frame(kind, data):
     return frame, pix, None
 
 
+def is_share(kind):
+    return kind is not None and kind[0] == '='
+
+
+def make_sharer(kind, data, base, base_ref, base_jpg):
+    """-> (frame, reference pixels, pre-existing jpg bytes or None) for a sharer of the already built frame `base`."""
+
+    from openfilter.filter_runtime.frame import Frame
+
+    _, _, label, how = kind
+    data             = copy.deepcopy(data)
+
+    if how == 'frame':
+        return Frame(base, data, label), base_ref, base_jpg       # the jpg blob (if any) belongs to the new frame too
+
+    return Frame(base.image, data, label), base_ref, None
+
+
+def effective(kinds, i):
+    """(format, height, width, layout) the frame of topic i is declared with / made of."""
+
+    k = kinds[i]
+
+    if not is_share(k):
+        return k
+
+    _, h, w, layout = kinds[k[1]]
+
+    return k[2], h, w, layout
+
+
+def share_bases(tier):
+    return [(f, h, w, l) for f in FORMATS for (h, w) in (SIZES if tier == 'thorough' else [SHARE_SIZE]) for l in LAYOUTS]
+
+
 def all_kinds():
     return [NOIMG] + [(f, h, w, l) for f in FORMATS for (h, w) in SIZES for l in LAYOUTS]
 
@@ -177,6 +222,27 @@ def cases(tier='quick'):
                     yield dict(part='C-multi', topics=topics, kinds=[REDUCED[(i + o) % n] for o in offs],
                                data=[(i + o) % 5 for o in offs], outs_jpg=oj, transport=tr)
 
+    for i, base in enumerate(share_bases(tier)):                                             # (F)
+        fmt, _, _, layout = base
+        labels = [fmt] + ([RELABEL[fmt]] if fmt in RELABEL else [])
+        hows   = ['frame'] + (['array'] if layout != 'jpg_undecoded' else [])      # .image of an undecoded frame decodes it: that is jpg_decoded
+
+        for how in hows:
+            for label in labels:
+                for topics, kinds in ((['main', 'other'], [base, ('=', 0, label, how)]),
+                                      (['_h', 'main'],    [('=', 1, label, how), base])):
+                    for data in ([i % 5, (i + 2) % 5], [0, 0]):
+                        for oj in OUTS:
+                            for tr in TRANS:
+                                yield dict(part='F-shared', topics=topics, kinds=kinds, data=data, outs_jpg=oj, transport=tr)
+
+        for label in labels:
+            for oj in OUTS:
+                for tr in TRANS:
+                    yield dict(part='F-shared', topics=['main', 'b', '_h', 'a'],
+                               kinds=[('=', 2, label, 'frame'), REDUCED[i % len(REDUCED)], base, ('=', 2, fmt, hows[-1])],
+                               data=[i % 5, (i + 1) % 5, (i + 2) % 5, (i + 3) % 5], outs_jpg=oj, transport=tr)
+
     for oj in OUTS:                                                                          # (D)
         for tr in TRANS:
             yield dict(part='D-empty', topics=[], kinds=[], data=[], outs_jpg=oj, transport=tr)
@@ -201,7 +267,7 @@ def run_case(case):
 
     from openfilter.filter_runtime.mq import MQ
 
-    kinds  = [None if k is None else tuple(k) for k in case['kinds']]
+    kinds  = [None if k is None else tuple(k) for k in case['kinds']]     # (after JSON a kind is a list)
     topics = case['topics']
     oj     = case['outs_jpg']
     viols  = []
@@ -212,8 +278,15 @@ def run_case(case):
 
     frames, refs, jpgs, datas = {}, {}, {}, {}
 
-    for t, k, d in zip(topics, kinds, case['data']):
-        frames[t], refs[t], jpgs[t] = make_frame(k, DATA[d])
+    built = {}
+
+    for share in (False, True):                      # bases first, then the frames made from them
+        for t, k, d in zip(topics, kinds, case['data']):
+            if is_share(k) == share:
+                built[t] = make_sharer(k, DATA[d], *built[topics[k[1]]]) if share else make_frame(k, DATA[d])
+
+    for t, d in zip(topics, case['data']):           # the set itself in the order of `topics`
+        frames[t], refs[t], jpgs[t] = built[t]
         datas[t] = copy.deepcopy(DATA[d])
 
     try:
@@ -242,7 +315,7 @@ def run_case(case):
 
         return viols
 
-    for t, k in zip(topics, kinds):
+    for i, (t, k) in enumerate(zip(topics, kinds)):
         x, o, msg = frames[t], outs[t], msgs[t]
 
         if o.data != datas[t]:
@@ -259,7 +332,7 @@ def run_case(case):
 
             continue
 
-        fmt, h, w, layout = k
+        fmt, h, w, layout = effective(kinds, i)
 
         if (o.height, o.width, o.format) != (h, w, fmt):
             bad('shape-format', f'topic {t!r}: (height, width, format) out {(o.height, o.width, o.format)} != in {(h, w, fmt)}')
@@ -323,14 +396,17 @@ def run(rep):
     kinds = all_kinds()
 
     rep.set('rule', 'a case = (ordered topic->(frame kind, data) mapping, outs_jpg, transport); frame kind = no image | '
-            'format x size x layout; the listed cross products are enumerated completely; distinct = distinct canonical '
+            'format x size x layout | sharer of another topic of the set (same pixel array / jpg blob, same or other colour '
+            'label); the listed cross products are enumerated completely; distinct = distinct canonical '
             'JSON of the case; non-trivial = at least one frame carries an image or non-empty data')
     rep.assumption('transport "wire" re-enacts what zeromq.py does to a message (msg[0] via JSON in the envelope, other parts '
                    'as bytes); sockets themselves are the business of C01-C08')
     rep.assumption(f'JPEG tolerance: smooth synthetic images, mean abs error <= {JPG_TOL}; non-finite floats and non-str dict keys '
                    'are outside JSON and not enumerated')
     rep.part('domains', frame_kinds=len(kinds), formats=len(FORMATS), sizes=len(SIZES), layouts=len(LAYOUTS), data=len(DATA),
-             outs_jpg=len(OUTS), transports=len(TRANS), reduced_kinds=len(REDUCED))
+             outs_jpg=len(OUTS), transports=len(TRANS), reduced_kinds=len(REDUCED), share_bases=len(share_bases(rep.tier)))
+    rep.assumption('a sharer relabels between BGR and RGB only (Frame(frame, data, format) does not convert; a GRAY array has no '
+                   'other valid label); the frames of one set may share memory but none is written to while the set is encoded')
 
     seen, nontrivial, sampled = set(), set(), {}
 
